@@ -44,7 +44,7 @@ def generate(rng, tier, index):
         triples = gen.gen_schema_graph(rng, n_nodes=n_nodes, n_classes=rng.randint(1, 3), n_props=rng.randint(1, 4), bnodes=bn)
     else:
         triples = gen.gen_graph(rng, n_nodes=n_nodes, n_classes=rng.randint(1, 3), n_props=rng.randint(1, 5), bnodes=bn,
-                                density=rng.choice([0.4, 0.6, 0.9]), kinds=("node", "str", "int", "lang", "date", "iri", "iri2"))
+                                density=rng.choice([0.4, 0.6, 0.9]), kinds=("node", "str", "int", "lang", "date", "iri", "iri2", "cdt"))
     tp = gen.CUSTOM_TYPE if rng.random() < 0.12 else gen.RDF_TYPE
     triples = gen.retype(gen.ensure_class(triples), tp)
     family = "store" if rng.random() < 0.5 else "document"
@@ -75,7 +75,10 @@ def generate(rng, tier, index):
         fmt = rng.choice(["nt", "nt", "nt", "tsv_spo", "turtle_iter"])
         if fmt == "turtle_iter" and any(t[2][0] == "l" and t[2][3] for t in triples):
             fmt = "nt"     # the streaming reader rejects language tags (C04/C07, not claimed)
-    return {"family": family, "format": fmt, "schema": schema, "graph": gen.L(triples), "target": target, "options": options,
+    ttl_prefixed = None
+    if fmt == "turtle_iter" and rng.random() < 0.6:
+        ttl_prefixed = "dt" if rng.random() < 0.3 else "plain"
+    return {"family": family, "format": fmt, "schema": schema, "ttl_prefixed": ttl_prefixed, "graph": gen.L(triples), "target": target, "options": options,
             "ns": gen.gen_namespaces(rng), "relabel": relabel, "orders": [[p1, p2]]}
 
 
@@ -87,9 +90,13 @@ def _relabel(triples, m):
     return [(f(s), p, f(o)) for (s, p, o) in triples]
 
 
-def _doc(triples, fmt):
+def _doc(triples, fmt, scen=None):
     if fmt == "tsv_spo":
         return gen.to_tsv(triples)
+    if fmt == "turtle_iter" and scen is not None and scen.get("ttl_prefixed"):
+        # flat (one statement per line) Turtle with @prefix lines; custom datatypes may be written with a prefix the
+        # streaming reader cannot resolve: then both orders must fail alike
+        return gen.to_turtle(triples, group=False, dialect="iter", prefixed_custom_datatypes=scen.get("ttl_prefixed") == "dt")
     return gen.to_nt(triples)
 
 
@@ -162,11 +169,11 @@ def execute(scen, scratch):
                     texts.append(out.text)
         else:
             fmt = scen["format"]
-            ref = run_once(_kwargs(scen, raw_graph=_doc(triples, fmt), input_format=fmt))
+            ref = run_once(_kwargs(scen, raw_graph=_doc(triples, fmt, scen), input_format=fmt))
             runs += 1
             for (p1, _p2) in scen["orders"]:
                 perm = [moved[i] for i in p1]
-                out = run_once(_kwargs(scen, raw_graph=_doc(perm, fmt), input_format=fmt))
+                out = run_once(_kwargs(scen, raw_graph=_doc(perm, fmt, scen), input_format=fmt))
                 runs += 1
                 if p1 != list(range(n)):
                     differs = True
